@@ -21,6 +21,7 @@ void myth_verif_ev(const char *name, int n, ...); /* n long arguments */
 void myth_verif_evz(const char *name, int n, ...);/* same, dropped when idle worker and last arg == 0 */
 void myth_verif_evlock(const char *name, const void *lock); /* logged only for locks registered in ns 2 */
 long myth_verif_id(int ns, const void *p);        /* dense id (1,2,..) per namespace, 0 for NULL */
+long myth_verif_id_alias(int ns, const void *key, const void *alias);
 long myth_verif_addr(const void *p);              /* tagged address, rank-compressed at dump time */
 int  myth_verif_choose(int lo, int hi);           /* -1 when inactive */
 int  myth_verif_clock(struct timespec *ts);       /* 1 when the virtual clock supplied *ts */
